@@ -129,7 +129,7 @@ class C12(Prop):
     level_text = ("Lean 4 theorems about an executable model of the turn-grant loop and bounded command loop of backend() and of "
                   "get_user_command/process_user_command (rotating cursor, HAS_CMD_TURN/CMD_IN_BUF/SINGLE_CHAR, sparse connection "
                   "table, (dis)connects between and inside cycles incl. a connect and disconnects in one process_io, command() "
-                  "efun, uncaught LPC errors that abort an iteration and restart the loop) for all tables, cursors, queue depths "
+                  "efun, exec() moving a connection to another object, uncaught LPC errors that abort an iteration and restart the loop) for all tables, cursors, queue depths "
                   "and scripts; TOP THEOREM model_satisfies_spec: judgeEv (events sc cs) = [] - the specification oracle (all five "
                   "clause oracles: twice / outside / crash / malformed, efun, fifo, starved / idleWait, overtaken) accepts the "
                   "trace of the model for every history with plain bytes and every script oracle; the model is tied to the source by regenerated "
@@ -140,11 +140,11 @@ class C12(Prop):
                   "histories; poll events are reported to the driver in a fixed order: listening port, then users by slot); LPC "
                   "code run by commands is an oracle script with fuel; sent bytes in the trace theorems are plain (no "
                   "NUL/BS/DEL/CR/LF: such bytes edit or split lines); input buffer size rules (C13), `!` "
-                  "escapes, ed, exec(), console user are outside the model")
+                  "escapes, ed, console user are outside the model")
     rule = ("cases = corpus + boundary list + seeded random histories: 1..12 users (sometimes 50..112) connecting (accept queue), "
             "closing, being kicked/dropped from inside commands, sparse slot layouts, several users quitting inside one command "
             "loop with nobody idle, bursts of 0..12 lines per user incl. partial lines and empty lines, get_char/input_to mode "
-            "switches, nested command() calls, commands that raise uncaught errors (aborted iterations); every cycle of the real "
+            "switches, nested command() calls, exec() of the connection to a fresh object, commands that raise uncaught errors (aborted iterations); every cycle of the real "
             "backend() is compared line by line with the model (commands served, iflags and slot of every user after each "
             "cycle); a case is non-trivial when at least one buffered command was executed; distinct = distinct canonical "
             "implementation trace")
@@ -152,7 +152,7 @@ class C12(Prop):
                    "C13's open finding C13-typeahead-discard (complete type-ahead commands discarded when > 1663 bytes are "
                    "pending) is a loss of commands that wait for their turns, i.e. it also breaks the FIFO clause of this "
                    "property for such bursts",
-                   "`!` shell escapes with a pending input_to, ed, snooping, console user (slot 0), telnet negotiation bytes, exec()",
+                   "`!` shell escapes with a pending input_to, ed, snooping, console user (slot 0), telnet negotiation bytes",
                    "heart beats: an iteration aborted by an error skips call_heart_beat() (property C11)"]
 
     # ---- tie: scheduling expressions regenerated from the source text ------------------------------------
@@ -379,6 +379,10 @@ class C12(Prop):
         mk("quit-at-table-edge", ["script u50 =q kick,u50", "script u49 =q kick,u49"] + ["conn"] * 51 + ["cycle"] * 52 +
            ["close u%d" % i for i in range(2, 49)] + ["cycle", "send u51 q~", "send u50 q~", "send u49 q~", "send u1 a~b~"] +
            ["cycle"] * 4)
+        # exec(): the connection (slot, iflags, text buffer, pending input_to) moves to a fresh object
+        mk("exec-moves-connection", ["script u1 =x exec;gc", "script u2 =y exec;exec;ecmd,u1,m1", "script u1 =m1 exec;it",
+                                     "script u3 =k exec;kick,u3"] + conns(3) +
+           ["send u1 x~ab~c~", "send u2 y~p~q~", "send u3 r~k~s~"] + ["cycle"] * 5 + ["send u1 z~", "cycle", "cycle"])
         mk("kick-waiting-user", ["script u3 =k kick,u1;kick,u2", "script u2 =s kick,u2;gc"] + conns(3) +
            ["send u1 a~b~", "send u2 a~b~", "send u3 k~c~", "cycle", "cycle", "conn", "cycle", "send u4 s~", "cycle", "cycle"])
         mk("self-kick-and-drop", ["script u2 =s kick,u2;ecmd,u1,m1", "script u1 =d drop,u1;ecmd,u1,m1;gc", "script u1 =m1 it"] +
@@ -415,7 +419,7 @@ class C12(Prop):
         ops = []
         for _ in range(rng.range(1, 3)):
             k = rng.weighted([("kick", 2), ("drop", 2), ("ecmd", 5 if level > 1 else 0), ("gc", 3), ("it", 2), ("itn", 1),
-                              ("err", 2)])
+                              ("err", 2), ("exec", 1)])
             if k in ("kick", "drop"):
                 ops.append("%s,u%d" % (k, rng.range(1, nusers + 1)))
             elif k == "ecmd":
@@ -636,7 +640,7 @@ class C12(Prop):
     def histogram(self, cases, impl):
         h = {"cycles": 0, "aborted_cycles": 0, "buffered_cmds": 0, "efun_cmds": 0, "kicks": 0, "drops": 0, "getchar": 0, "input_to": 0,
              "cycles_with_3plus_served": 0, "cycles_leaving_backlog": 0, "max_users_100": 0, "closes": 0, "logons": 0,
-             "connect_and_disconnect_in_one_io": 0}
+             "connect_and_disconnect_in_one_io": 0, "exec_moves": 0}
         for c in cases:
             served = 0
             closed_since_end = False
@@ -660,6 +664,8 @@ class C12(Prop):
                     h["getchar"] += 1
                 elif t[0] == "it" and t[-1] == "1":
                     h["input_to"] += 1
+                elif t[0] == "exec" and t[-1] == "1":
+                    h["exec_moves"] += 1
                 elif t[0] == "abort":
                     h["aborted_cycles"] += 1
                 elif t[0] == "close":
